@@ -123,6 +123,9 @@ package ethereum
 //@   ensures [one-head-read] ghostCount("headread") == old(ghostCount("headread")) + 1
 //@   modifies fresh NewBlock.*, fresh lib:big.Int.v
 //@   nopanic
+// the head of the re-observation path is read with the same finality tag as the polling path
+// (the poller asks with safe == false: "finalized" on chains read at finalized height, else "latest")
+//@   at [return block.Number.Uint64(), nil]: assert [same-finality-tag-as-the-poller] !block.Safe
 
 //@ func (w *Watcher) Run(ctx context.Context) (err error)
 //@   props C10
